@@ -348,10 +348,22 @@ def coq_shards(prefix: str, header: str, case_terms: list[str], case_type: str,
 # ------------------------------------------------------------ implementation side
 
 
+def _limit_memory():
+    # a runaway implementation process (e.g. a format specifier asking for a 10 GB padded box)
+    # must fail by itself instead of taking the machine down
+    import resource
+    lim = 24 * 2**30
+    try:
+        resource.setrlimit(resource.RLIMIT_AS, (lim, lim))
+    except (ValueError, OSError):
+        pass
+
+
 def run_impl(script: str, payload, timeout=900):
     """Run harness/impl/<script> with the implementation's python; JSON in, JSON out."""
     p = subprocess.run(
         [IMPL_PY, str(VERIF / "harness" / "impl" / script)],
+        preexec_fn=_limit_memory,
         input=json.dumps(payload),
         stdout=subprocess.PIPE,
         stderr=subprocess.PIPE,
